@@ -81,7 +81,9 @@ pub fn eval(joint: usize, from: f64, to: f64, k: u64, history: usize) -> Result<
         let _ = catch_unwind(AssertUnwindSafe(|| sibling.random_angles()));
         let _ = verif_hooks::disarm_local_script();
     }
-    verif_hooks::arm_local_script(Box::new(move |i| if i == joint { raw } else { half }));
+    // the other five joints (limits -1..1) draw 61/64: 0.906 on their own range, far outside it on any wider one
+    let high = raw_for_unit(61u64 << 46);
+    verif_hooks::arm_local_script(Box::new(move |i| if i == joint { raw } else { high }));
     let res = catch_unwind(AssertUnwindSafe(|| c.random_angles()));
     let consumed = verif_hooks::disarm_local_script();
     let cls = format!("{}{}", class(from, to), match history { 0 => "", 1 => "/from_degrees", _ => "/after-update_range" });
@@ -100,6 +102,17 @@ pub fn eval(joint: usize, from: f64, to: f64, k: u64, history: usize) -> Result<
         // range, say) the scripted value did not reach the joint under test; the membership clauses below still apply to
         // whatever was produced, only the "both ends of each piece" argument is not claimed for this case
         DRAW_PATTERN_DIFFERS.fetch_add(1, std::sync::atomic::Ordering::Relaxed);
+    }
+    // the joints not under test keep to their own ranges whatever the range of the joint under test is
+    if consumed == 6 {
+        for i in (0..6).filter(|&i| i != joint) {
+            if arc_member(c.from[i], c.to[i], q[i], 1e-9) == ArcVerdict::Outside {
+                return Err((
+                    format!("C18/other-joint-outside/{cls}"),
+                    format!("joint {} (limits [{}, {}]) is sampled at {} while joint {} has limits [{from}, {to}]", i + 1, c.from[i], c.to[i], q[i], joint + 1),
+                ));
+            }
+        }
     }
     match arc_member(from, to, q[joint], 1e-9) {
         ArcVerdict::Boundary => Ok(None),
@@ -145,6 +158,51 @@ fn draws(from: f64, to: f64) -> Vec<u64> {
 
 fn case_json(joint: usize, from: f64, to: f64, k: u64, history: usize) -> Value {
     json!({"joint": joint, "from": from, "to": to, "unit_numerator": k.to_string(), "unit_denominator": "2^52", "history": history})
+}
+
+/// The constraint set as a robot hands it to the planners (Kinematics::constraints()), 6-DOF and 5-DOF, bare and behind a
+/// tool: its samples lie on the arcs it reports and are accepted by the set itself.
+fn robot_sets(rep: &mut Report, base: u64) {
+        use rs_opw_kinematics::kinematic_traits::Kinematics;
+        let given_from = [-1.0, -0.5, -2.0, 2.5, -1.0, 0.2];
+        let given_to = [1.0, 1.5, 2.0, -2.5, 1.0, 0.6];
+        for dof in [6i8, 5] {
+            for wrapped in [false, true] {
+                let mut p = crate::common::robots::make(0.1, -0.1, 0.0, [0.6, 0.7, 0.75, 0.09], [1; 6], [0.0; 6], 6);
+                p.dof = dof;
+                let core = rs_opw_kinematics::kinematics_impl::OPWKinematics::new_with_constraints(p, Constraints::new(given_from, given_to, 0.0));
+                let robot: std::sync::Arc<dyn Kinematics> = if wrapped {
+                    std::sync::Arc::new(rs_opw_kinematics::tool::Tool { robot: std::sync::Arc::new(core), tool: nalgebra::Isometry3::translation(0.0, 0.0, 0.1) })
+                } else {
+                    std::sync::Arc::new(core)
+                };
+                let Some(set) = robot.constraints().as_ref().copied() else { continue };
+                for unit in [0u64, 1, 7, 19, 32, 45, 61, 63] {
+                    let raw = raw_for_unit(unit << 46);
+                    verif_hooks::arm_local_script(Box::new(move |_| raw));
+                    let res = catch_unwind(AssertUnwindSafe(|| set.random_angles()));
+                    let _ = verif_hooks::disarm_local_script();
+                    rep.states += 1;
+                    rep.transitions += 1;
+                    let case = json!({"kind": "robot-set", "dof": dof, "wrapped": wrapped, "unit": unit});
+                    let case_no = base + unit + 100 * (dof as u64) + if wrapped { 1000 } else { 0 };
+                    match res {
+                        Err(pn) => rep.fail(format!("C18/robot-set/panic/dof{dof}"), case_no, case, format!("random_angles panicked: {}", panic_message(&pn))),
+                        Ok(q) => {
+                            // judged on the limits the handed-out set reports (a robot may legitimately hold other limits than
+                            // it was given, as long as the set is consistent with itself)
+                            if arc_member6(&set.from, &set.to, &q, 1e-9) == ArcVerdict::Outside {
+                                rep.fail(format!("C18/robot-set/outside-reported-limits/dof{dof}"), case_no, case, format!("sample {q:?} violates the limits the set reports: from {:?} to {:?}", set.from, set.to));
+                            } else if arc_member6(&set.from, &set.to, &q, 1e-9) == ArcVerdict::Inside && !set.compliant(&q) {
+                                rep.fail(format!("C18/robot-set/rejected-by-own-constraints/dof{dof}"), case_no, case, format!("sample {q:?} is rejected by the set that produced it"));
+                            } else {
+                                rep.sig(format!("robot-set:dof{dof}:accepted"));
+                            }
+                        }
+                    }
+                }
+            }
+        }
 }
 
 pub fn run(ctx: &Ctx) -> Report {
@@ -210,6 +268,7 @@ pub fn run(ctx: &Ctx) -> Report {
         rep.merge(srep);
         rep.set("special_ranges", json!({"ranges": ranges.len(), "ladder_values": lad.len()}));
     }
+    robot_sets(&mut rep, n + 50_000_000);
     let odd = DRAW_PATTERN_DIFFERS.load(std::sync::atomic::Ordering::Relaxed);
     rep.set("calls_with_another_draw_pattern", json!(odd));
     if odd * 2 > rep.transitions && rep.fails.is_empty() {
@@ -220,7 +279,7 @@ pub fn run(ctx: &Ctx) -> Report {
         "(from,to) on the {step_deg}-degree lattice of [-360,360]^2 (one joint at a time) x scripted unit draws {{0, 2^-52, i/64, 1-2^-52, \
          segment switch point +-{{2^-52, 2^-30}}}} x histories {{new, from_degrees, update_range over a narrow / narrow wrapping / unconstrained / wide / nearly-full / symmetric wider earlier range}}, a sibling set with the same lower limits sampled just before a quarter of the draws fed to the real sampler through the ScriptedRng hook; the sampler is piecewise linear in the \
          draw with one breakpoint, so both ends and both sides of the breakpoint decide each piece; oracle = arc membership (and the library's \
-         own compliant()); results within 1e-9 of an arc end are skipped_boundary; plus ranges of every ladder width (almost empty, almost a full turn both ways) and signed zeros; signature = (range class, accepted)"
+         own compliant()); results within 1e-9 of an arc end are skipped_boundary; plus ranges of every ladder width (almost empty, almost a full turn both ways) and signed zeros; the other five joints draw 61/64 and must stay on their own ranges; the sets handed out by 6-DOF and 5-DOF robots (bare, behind a tool) are sampled too; signature = (range class, accepted)"
     );
     rep.set("axes", json!({"step_deg": step_deg, "from_values": span, "to_values": span, "draws_per_range": "66 + up to 5 around the breakpoint"}));
     rep.assumptions.push("rand 0.9 maps a raw u64 r to the unit value (r >> 12) / 2^52 (checked: the script must be consumed exactly once per joint)".into());
@@ -228,6 +287,11 @@ pub fn run(ctx: &Ctx) -> Report {
 }
 
 pub fn replay(case: &Value) -> Vec<String> {
+    if case["kind"] == "robot-set" {
+        let mut rep = Report::new();
+        robot_sets(&mut rep, 0);
+        return rep.fails.iter().map(|f| format!("{}: {}", f.key, f.detail)).collect();
+    }
     let k: u64 = case["unit_numerator"].as_str().unwrap().parse().unwrap();
     match eval(case["joint"].as_u64().unwrap() as usize, as_num(&case["from"]), as_num(&case["to"]), k, case["history"].as_u64().unwrap_or(0) as usize) {
         Err((k, d)) => vec![format!("{k}: {d}")],
